@@ -515,7 +515,7 @@ def run(tier, replay):
                 "random letter case; all names printed at the end; distinct by upper-cased text",
         "histories_by_family": byfam, "agree_by_family": agree_by, "unspecified_by_family": skip_by, "agree": nag, "unspecified_by_the_documents": nskip,
         "design_check": {"module": "MC_Names", "distinct_states": states,
-                         "invariants": ["DefaultIsSingle", "BareIsDefault", "SuffixesDistinct", "ExtendedExcludes", "LocalByDefault"]},
+                         "invariants": ["DefaultIsSingle", "BareIsDefault", "SuffixesDistinct", "ExtendedExcludes", "LocalByDefault", "UseSiteIndifferent"]},
         "checker_cmd": res2.cmd, "exhaustive": False,
     }
     assumptions = ["three-valued oracle: histories the documents leave open (a declaration after a use of the same base, "
